@@ -24,7 +24,7 @@ NOT decided: round trip through MessageView (value-level).
 
 ASSUMPTIONS = ['slice::sort_by_key is stable', 'ToRoughTLV impls of the leaf types write exactly rough_tlv_len() bytes']
 
-FLOORS = {'R11.1': 9, 'R11.2': 5, 'R11.3': 9, 'R11.4': 5}
+FLOORS = {'R11.1': 9, 'R11.2': 5, 'R11.3': 9, 'R11.4': 5, 'R11.5': 6}
 
 MW = 'rough_tlv::encoder::MessageWrapper'
 I32MAX = 2**31 - 1
@@ -305,4 +305,51 @@ def r11_4(cx):
     cx.check(len(cs) == 1 and cs[0].matches(prog.fn(MW + '::encode')), 'to_rough_tlv', tr, None, 'to_rough_tlv = encode', fail_detail='to_rough_tlv does more than encode')
 
 
-RULES = [('R11.1', r11_1), ('R11.2', r11_2), ('R11.3', r11_3), ('R11.4', r11_4)]
+VIEW_CALLS = ('as_bytes', 'deref', 'as_ref', 'borrow', 'as_slice')
+
+
+def _view_of_self(e):
+    """e is the bytes of the first parameter seen through identity views only (as_bytes, deref, ...)"""
+    calls = list(e.calls())
+    return all(c.op.rsplit('::', 1)[-1] in VIEW_CALLS for c in calls) and e.params() == {1} \
+        and not list(e.consts()) and not any(n.kind == 'binop' for n in e.walk())
+
+
+def r11_5(cx):
+    """leaf values: the length a value announces is the length of the bytes it appends (one append of self's bytes per path; wrappers delegate both methods to the same inner value)"""
+    prog = cx.prog
+    impls = {}
+    for f in prog.fns.values():
+        if f.crate == 'rough_tlv' and f.kind != 'Closure' and ' as rough_tlv::encoder::ToRoughTLV<' in f.name and 'MessageWrapper' not in f.name:
+            impls.setdefault(f.name.rsplit('>::', 1)[0], {})[f.name.rsplit('::', 1)[-1]] = f
+    for ty in sorted(impls):
+        pair = impls[ty]
+        cx.count_sites()
+        inst = 'leaf:' + ty.split(' as ')[0].lstrip('<')
+        if set(pair) != {'to_rough_tlv', 'rough_tlv_len'}:
+            cx.fail(inst, None, None, 'impl does not define both to_rough_tlv and rough_tlv_len: %s' % sorted(pair))
+            continue
+        to, ln = pair['to_rough_tlv'], pair['rough_tlv_len']
+        r = ln.local_expr(0, []).strip()
+        apps = [c for c in to.calls() if c.callee.rsplit('::', 1)[-1] in ('append_copy', 'append_borrow')]
+        dels = [c for c in to.calls() if c.callee.endswith('::to_rough_tlv')]
+        known = {c.pos for c in apps} | {c.pos for c in dels}
+        others = [c for c in to.calls() if c.pos not in known and c.callee.rsplit('::', 1)[-1] not in VIEW_CALLS]
+        if dels and not apps:
+            ok = len(dels) == 1 and not others and r.kind == 'call' and r.op.endswith('::rough_tlv_len') and \
+                r.op.rsplit('::', 1)[0] == dels[0].callee.rsplit('::', 1)[0] and show(r.args[0].strip()) == show(dels[0].arg(0).strip()) and _view_of_self(r.args[0]) \
+                and dels[0].arg(1).strip().kind == 'param'
+            cx.check(ok, inst, to, dels[0].loc(), 'both methods delegate to the same inner value (%s)' % show(dels[0].arg(0))[:50],
+                     fail_detail='to_rough_tlv and rough_tlv_len do not delegate to the same inner value: %s vs %s' % (show(dels[0].arg(0))[:60], show(r)[:80]))
+            continue
+        blocks = [c.bb for c in apps]
+        once = bool(apps) and to.path(0, to.returns(), cut_blocks=blocks) is None and \
+            all(not (set(blocks) - {b}) & to.reachable(to.succs()[b][0] if to.succs()[b] else b) for b in blocks)
+        views = all(_view_of_self(c.arg(1)) and c.arg(0).strip().kind == 'param' and c.arg(0).strip().info['i'] == 2 for c in apps)
+        lenok = is_call(r, 'len') and _view_of_self(r.args[0])
+        cx.check(once and views and lenok and not others and not dels, inst, to, apps[0].loc() if apps else None,
+                 'exactly one append of self\'s bytes on every path; rough_tlv_len = len of the same bytes',
+                 fail_detail='once-per-path=%s, appends self\'s bytes=%s, len of self\'s bytes=%s (%s), other calls=%s' % (once, views, lenok, show(r)[:60], [short(c.callee) for c in others]))
+
+
+RULES = [('R11.1', r11_1), ('R11.2', r11_2), ('R11.3', r11_3), ('R11.4', r11_4), ('R11.5', r11_5)]
